@@ -241,6 +241,8 @@ func c05Header(c *h.Ctx) error {
 
 var c05DefaultHeader []byte
 
+var c05ReusedDialects = dialects.NewDialects()
+
 // ---- dialects ----
 
 type c05DialectCase struct {
@@ -280,6 +282,19 @@ func c05Dialects(c *h.Ctx) error {
 			smbFail(c, empty, "dialects.Dialects.Marshal", "marshal-error", fmt.Sprintf("%v %s", merr, p), sample)
 		} else if !bytes.Equal(lib, k.Wire) {
 			smbFail(c, empty, "dialects.Dialects.Marshal", aspect, fmt.Sprintf("library %s, MS-CIFS %s", smbHex(lib), smbHex(k.Wire)), sample)
+		}
+		// the same list given to ONE long-lived Dialects value (a client retrying with other dialects, a relay re-emitting
+		// requests): its encoding is that of the list it holds now, whatever it encoded before
+		{
+			c05ReusedDialects.Dialects = append([]string(nil), names...)
+			var rb []byte
+			var rerr error
+			rp := h.Guard(func() { rb, rerr = c05ReusedDialects.Marshal() })
+			c.Exec(1)
+			if rp != "" || rerr != nil || !bytes.Equal(rb, lib) {
+				smbFail(c, false, "dialects.Dialects.Marshal", "reused-object", fmt.Sprintf("a Dialects value that encoded another list before gives %s, a fresh one %s (%v %s)", smbHex(rb), smbHex(lib), rerr, rp), sample)
+				c05ReusedDialects = dialects.NewDialects()
+			}
 		}
 		d2 := dialects.NewDialects()
 		var uerr error
